@@ -16,7 +16,8 @@ Sc1 == [
   ets |-> [
     User |-> [attrs |-> [n |-> Req_(TLong), opt |-> Opt_(TStr), mgr |-> Opt_(TEnt("User")),
                          rec |-> Req_(TRec([inner |-> Opt_(TLong), flag |-> Req_(TBool)])),
-                         fav |-> Opt_(TEnt("Color")), colors |-> Opt_(TSet(TEnt("Color")))],
+                         fav |-> Opt_(TEnt("Color")), colors |-> Opt_(TSet(TEnt("Color"))),
+                         palette |-> Opt_(TSet(TRec([c |-> Req_(TEnt("Color"))]))), grid |-> Opt_(TSet(TSet(TEnt("Color"))))],
              tags |-> TLong, memberOf |-> {"Group", "Org"}, enum |-> {}],
     Group |-> [attrs |-> <<>>, tags |-> NoTags, memberOf |-> {"Org"}, enum |-> {}],
     Org |-> [attrs |-> <<>>, tags |-> NoTags, memberOf |-> {}, enum |-> {}],
@@ -27,7 +28,8 @@ Sc1 == [
   ],
   acts |-> [
     view |-> [applies |-> TRUE, principals |-> {"User"}, resources |-> {"Doc", "Folder"},
-              context |-> [flag |-> Req_(TBool), note |-> Opt_(TStr), who |-> Opt_(TEnt("User")), tint |-> Opt_(TEnt("Color"))],
+              context |-> [flag |-> Req_(TBool), note |-> Opt_(TStr), who |-> Opt_(TEnt("User")), tint |-> Opt_(TEnt("Color")),
+                          tints |-> Opt_(TSet(TRec([c |-> Req_(TEnt("Color"))])))],
               memberOf |-> {"all"}],
     edit |-> [applies |-> TRUE, principals |-> {"User", "Group"}, resources |-> {"Doc"},
               context |-> <<>>, memberOf |-> {"rw"}],
